@@ -1214,7 +1214,7 @@ func (c *compiler) funcBuiltins(any, []any) any {
 		}
 	}
 	for name, fn := range c.customFuncs {
-		if name[0] != '_' {
+		if !strings.HasPrefix(name, "_") {
 			for i, cnt := 0, fn.argcount; cnt > 0; i, cnt = i+1, cnt>>1 {
 				if cnt&1 > 0 {
 					xs = append(xs, &funcNameArity{name, i})
